@@ -189,7 +189,7 @@ def pg_arbphase(seq, V, St, w):
 
 PROGRAMS = {"styles": (pg_styles, 15), "eom": (pg_eom, 8), "dmm_slm": (pg_dmm_slm, 7), "xy": (pg_xy, 5), "arbphase": (pg_arbphase, 7)}
 
-REGS = ["2d", "2d-layout", "3d", "3d-layout", "mappable"]
+REGS = ["2d", "2d-layout", "3d", "3d-layout", "mappable", "mappable-3d"]  # {2D, 3D} x {plain, from a layout, mappable}
 DEVS = ["virtual", "MockDevice", "custom-physical"]
 
 
@@ -210,9 +210,11 @@ def make_register(kind, w):
         if kind == "mappable":
             return MappableRegister(L, Q(0), Q(1), Q(2)), dict(zip(c2, ids))
         return L.define_register(*ids, qubit_ids=list(c2))
-    if kind == "3d-layout":
+    if kind in ("3d-layout", "mappable-3d"):
         L = RegisterLayout([(3.0, 9.0, -4.0), (0.0, 0.0, 0.0), (8.0, 0.0, 1.0), (0.0, 0.0, 9.0), (5.0, 5.0, 5.0), (-5.0, 5.0, 5.0)])
         ids = L.get_traps_from_coordinates(*c3.values())
+        if kind == "mappable-3d":
+            return MappableRegister(L, Q(0), Q(1), Q(2)), dict(zip(c3, ids))
         return L.define_register(*ids, qubit_ids=list(c3))
     raise ValueError(kind)
 
@@ -304,6 +306,9 @@ def cases(tier):
                     continue
                 out.append((name, act, chosen, "2d", "virtual"))
                 out.append((name, act, chosen, "mappable", "virtual"))
+                if not act:
+                    out.append((name, act, chosen, "mappable-3d", "MockDevice"))
+                    out.append((name, act, chosen, "3d-layout", "virtual"))
         out.append((name, (), ((0, "round"),), "2d", "virtual"))
         # integer qubit ids (in and out of register order): the abstract representation stores ids as strings and
         # addresses qubits by index, so the decoded sequence must equal the same program written with str(id)
